@@ -1,4 +1,5 @@
 import Regatta.Proofs.Wire
+import Regatta.Proofs.WireMsg
 /-
   C18 — Wire codecs and stream framing are lossless for every message and chunking.
 
@@ -6,8 +7,10 @@ import Regatta.Proofs.Wire
   Txn / Command (recursive) / SnapshotChunk, the 8-byte little-endian length-prefixed command file,
   the chunk stream (Writer.ReadFrom, Reader.WriteTo, Reader.Read).  The encoders are tied to the
   code byte for byte (the registered codec's output for random message trees must equal the Lean
-  encoding); decoding is proved for the flat messages (SnapshotChunk — the type the stream readers
-  recycle — with the pool-reuse law) and checked against the real decoder for all of them.
+  encoding); decoding (`Model/WireDec.lean`, the shape of the generated UnmarshalVT) is proved to
+  invert the encoding for every one of these messages — all oneof arms, absent vs present-empty
+  optional fields, arbitrary nesting depth of Command — plus the pool-reuse law for SnapshotChunk,
+  the type the stream readers recycle; the real decoder is checked against the same bytes.
   Compression algorithms (snappy, gzip, zstd) are third-party and not modelled: their round trips
   under concurrent use of the pooled state are *tests* in the correspondence run, not theorems.
 -/
@@ -69,6 +72,39 @@ theorem c18_pool_reuse (dirty : SnapshotChunk) (b : Bytes) :
 theorem c18_pool_needs_reset_witness :
     SnapshotChunk.decInto ⟨[7], 1, 9⟩ (SnapshotChunk.enc ⟨[5], 1, 0⟩) = some ⟨[5], 1, 9⟩ ∧
     SnapshotChunk.dec (SnapshotChunk.enc ⟨[5], 1, 0⟩) = some ⟨[5], 1, 0⟩ := SnapshotChunk.no_reset_witness
+
+/-- **every mvcc message survives encode / decode**: KeyValue, RequestOp (range / put / delete arm
+and the empty oneof), Compare (with and without the oneof value), Txn … -/
+theorem c18_keyvalue_message (kv : KeyValue) : KeyValue.decode kv.enc = some kv := KeyValue.decode_enc kv
+theorem c18_requestop_message (o : RequestOp) : RequestOp.decode o.enc = some o := RequestOp.decode_enc o
+theorem c18_compare_message (c : Compare) : Compare.decode c.enc = some c := Compare.decode_enc c
+theorem c18_txn_message (t : Txn) : Txn.decode t.enc = some t := Txn.decode_enc t
+
+/-- … and **Command**, the recursive one (sequences of sequences …): for every command tree, with
+the decoder's nesting budget at least the tree's depth, decoding its encoding gives exactly the
+tree back — table, type, the optional KeyValue, the optional leader index (absent ≠ 0), the batch in
+order, the optional Txn, the optional range end (absent ≠ present-and-empty), both flags, and every
+sub-command in order -/
+theorem c18_command_message (c : Command) (fuel : Nat) (h : c.depth ≤ fuel) : Command.decode fuel c.enc = some c :=
+  Command.decode_enc c fuel h
+
+/-- consequently the encoding is injective: two different command trees never share an encoding -/
+theorem c18_command_injective (c d : Command) (h : c.enc = d.enc) : c = d := by
+  have h1 := Command.decode_enc c (max c.depth d.depth) (Nat.le_max_left _ _)
+  have h2 := Command.decode_enc d (max c.depth d.depth) (Nat.le_max_right _ _)
+  rw [h, h2] at h1
+  exact (Option.some.inj h1).symm
+
+/-- absent and present-but-empty are different messages and stay different: `range_end` of a
+DELETE command (what `handleDelete` branches on) and the leader index 0 of a table reset -/
+example :
+    Command.enc (.mk [116] 1 none none [] none (some []) false [] false) ≠
+      Command.enc (.mk [116] 1 none none [] none none false [] false) ∧
+    Command.enc (.mk [116] 2 none (some 0) [] none none false [] false) ≠
+      Command.enc (.mk [116] 2 none none [] none none false [] false) := by
+  refine ⟨fun h => ?_, fun h => ?_⟩
+  · have := c18_command_injective _ _ h; cases this
+  · have := c18_command_injective _ _ h; cases this
 
 /-- any sequence of small-numbered fields decodes to itself (the building block of the message
 decoders) -/
